@@ -85,7 +85,7 @@ P = {
          'Coq: trivial-path theorems; verified scene checker; correspondence'),
  'C07': ('proof', 'Proved: the four trait impls forward (subject, clipping) in the right order (by computation). Per run: rewritten operands '
          '(rotation, reversal, repeated vertices, closing point, part/hole permutation, Polygon vs MultiPolygon) give the same region (verified '
-         'checker) and, on the exact class, the same rings up to start/direction/repeats; the four impls return identical values.', '§7 C07',
+         'checker) and, on the exact class, the same canonical boundary (edges by supporting line; not rings: how a boundary is cut into rings is not part of the property); the four impls return identical values. Proved (BoundaryRegion): the even-odd region of a set of rings depends only on the multiset of its edges, so another start vertex, ring order or ring direction of an operand denotes the same region.', '§7 C07',
          'Coq: wrapper theorems + verified scene checker; representation group sampled'),
  'C08': ('proof', 'Translation and scaling clauses PROVED for all inputs over exact arithmetic: the abstraction theorem of the whole model '
          '(Paramcoq, binary parametricity, axiom-free) instantiated with the relations "differs by x -> k*x+tx, y -> k*y+ty" shows that the '
@@ -97,7 +97,7 @@ P = {
  'C09': ('proof', 'Proved: the boxes the shortcut looks at are exactly min/max over edge start points (every instance), and when they are '
          'disjoint the call returns the trivial combination, which is the named region at every point of the plane (exact instance, '
          'C09_shortcut_returns_named_region: regions of rings inside disjoint boxes are disjoint). Per run: adding a far part changes the '
-         'result only by that part (rings modulo start/direction on the exact class, regions by the verified checker); operands straddling '
+         'result only by that part (regions by the verified checker; on the exact class also the canonical boundaries - edges grouped by supporting line, not rings: a hole touching its exterior in a vertex is a ring of its own in the shortcut result and threaded into the exterior ring by the sweep, the same region by C09_threaded_hole_same_region); operands straddling '
          'each other\'s boxes exercise the shortcut and early-exit conditions.', '§7 C09', 'Coq: bounding-box and shortcut theorems; verified scene checker'),
  'C10': ('proof', 'The f32 instantiation has its own bit-exact model instance (NB32) and goes through the same correspondence; per run the f32 '
          'result is the named region (verified checker, tolerance 1e-4 x magnitude when rounded) and equals the f64 result coordinate for '
